@@ -215,10 +215,12 @@ def _cross_case(sql):
     from mindsdb_sql import parse_sql
     from mindsdb_sql.planner import plan_query
     cats = []
-    for ts in (False, True):
+    for ts in (False, True, 'no-groups'):
         pm = {'name': 'pred', 'integration_name': 'mindsdb'}
         if ts:
-            pm.update({'timeseries': True, 'window': 3, 'order_by_column': 'ts', 'group_by_columns': ['g'], 'horizon': 1})
+            # with and without partition columns (without them the plan has the same shape as for an ordinary model)
+            pm.update({'timeseries': True, 'window': 3, 'order_by_column': 'ts', 'group_by_columns': ['g'] if ts is True else [],
+                       'horizon': 1})
         cats.append(dict(integrations=['int1', 'int2'], default_namespace='mindsdb', predictor_metadata=[pm]))
         cats.append(dict(integrations=[{'name': 'int1', 'type': 'data'}, {'name': 'int2', 'type': 'data'}], default_namespace='mindsdb',
                          predictor_metadata=[dict(pm)]))
